@@ -5,7 +5,6 @@ import (
 	"context"
 	"fmt"
 	"io"
-	"slices"
 
 	blockstore "github.com/ipfs/boxo/blockstore"
 	cid "github.com/ipfs/go-cid"
@@ -140,9 +139,12 @@ func walkLoop(
 
 		// push children in reverse order so the first link is on top
 		// of the stack and gets popped next (left-to-right sibling
-		// visit order, matching IPIP-0412 pre-order DFS).
-		slices.Reverse(children)
-		stack = append(stack, children...)
+		// visit order, matching IPIP-0412 pre-order DFS). The slice
+		// belongs to the fetcher (it may be memoised), so it is read
+		// backwards rather than reversed in place.
+		for i := len(children) - 1; i >= 0; i-- {
+			stack = append(stack, children[i])
+		}
 
 		// skip identity CIDs: content is inline, no need to provide.
 		// children are still pushed (above) so an inlined dag-pb
